@@ -4,7 +4,7 @@ from harness import tcpgen as G, wire as W
 RULE = ("signatures are generated FROM WITNESSES: a random real SYN/SYN+ACK is built, the verified model extracts its signature and "
         "confirms that the derived signature text (fields generalised at random: mss/scale/payload/version -> '*', window -> "
         "%N / mss*N / mtu*N / '*', ttl -> ttl+d / ttl-) matches it exactly, so every signature is satisfiable by construction, incl. "
-        "eol+n, ?n kinds, olen>0, opt+, bad; bases: same type and IP version, bare, under Ether (also as a padded short frame) or IPv6 with extension headers before TCP, hints for MSS/WScale/timestamps, "
+        "eol+n, ?n kinds, olen>0, opt+, bad; bases: same type and IP version, bare, under Ether (also as a padded short frame) or IPv6 with extension headers before TCP, hints for MSS/WScale/timestamps (sometimes given twice with different values), a label passed alongside the signature, "
         "ECE/CWR/PSH/NS bits, payload, tos/id/DF; tape policies min / max / uniform / adversarial; oracle = verified extractor + "
         "matcher on the implementation's output bytes (must be EXACT at distance extra_hops); tie = model bytes vs bytes(out) under "
         "the same random tape; non-trivial = oracle confirms an exact match")
@@ -45,7 +45,13 @@ def admissible_base(R, v, ty):
             opts += "0101" + W.o_ts(R.choice([0, 1, 97256, 2 ** 32 - 1]), R.choice([0, 0, 5, 2 ** 32 - 1]))
         if R.random() < 0.2:
             opts += W.o_sok()
+        if R.random() < 0.1:
+            # a hint given TWICE with different values (a sniffed packet to which the caller appended its own): the last one counts,
+            # for the impersonator as for every reader of the packet
+            opts += R.choice([W.o_mss(R.choice([100, 536, 1460, 9000])), "01" + W.o_ws(R.choice([0, 2, 9, 14])), "0101" + W.o_ts(R.choice([0, 7, 123456]), 0)])
         opts = W.pad4(opts, "01")
+        if len(opts) > 80:
+            opts = opts[:80]
     spec["opts"] = opts
     if R.random() < 0.08:
         # a payload Scapy dissects as a layer of its own (DNS over TCP), not as Raw: it is payload all the same
@@ -213,6 +219,9 @@ def impl_init():
             kw["mtu"] = c["mtu"]
         if c["uptime"] is not None:
             kw["uptime"] = c["uptime"]
+        if len(c["sig"]) % 7 == 0:
+            # a label given ALONGSIDE the signature: the signature is what is used (the process-wide database knows both labels)
+            kw["raw_label"] = "s:unix:Linux:3.11 and newer" if int(tcp.flags) & 0x10 == 0 else "s:unix:Linux:3.x"
         try:
             res = impersonate_tcp(given, raw_signature=c["sig"], extra_hops=c["hops"], **kw)
             raw = bytes(res)
